@@ -18,6 +18,8 @@ type BlockIn struct {
 	// >= Len read as 0 and ignore writes
 	Len    int
 	OnElem func(i int, r, w int32) // optional: element i read address r / wrote address w (-1: none)
+	// AfterElem (optional): the flag register after element i
+	AfterElem func(i int, f uint8)
 }
 
 // BlockOut is the specified outcome.
@@ -132,6 +134,9 @@ func BlockSpec(in BlockIn) BlockOut {
 				f |= 0x40
 			}
 			finished = o.BC>>8 == 0
+		}
+		if in.AfterElem != nil {
+			in.AfterElem(o.Elems, f)
 		}
 		o.Elems++
 		if !repeat || finished {
